@@ -33,7 +33,8 @@ fn bodies(alphabet: &[&str], max_len: usize) -> Vec<String> {
 
 /// one program holding the string literal `lit` in every syntactic position a string can take
 fn string_program(lit: &str) -> String {
-    format!("x = {lit}\nf {lit}\nf({lit})\nt = {{ [{lit}] = 1 }}\ny = t[{lit}]\nz = {lit} .. {lit}\n")
+    // blanks inside the index brackets: `[[[s]]]` would open a long string one bracket early
+    format!("x = {lit}\nf {lit}\nf({lit})\nt = {{ [ {lit} ] = 1 }}\ny = t[ {lit} ]\nz = {lit} .. {lit}\n")
 }
 
 fn string_forms(body: &str, extra_newlines: bool) -> Vec<(String, &'static str)> {
@@ -60,6 +61,25 @@ pub fn c04_strings(rep: &mut Reporter, stats: &mut Stats, tier: Tier, _findings:
         let mut more = bodies(&ALPHABET_SMALL, n);
         more.retain(|b| b.chars().count() == n);
         all.extend(more);
+    }
+    // sequences of whole escape units: the interplay of neighbouring escapes (`\z` followed by an escaped blank, an
+    // escaped quote after a decimal escape, ...) lies beyond the character-level lengths above
+    {
+        const UNITS: [&str; 18] = ["\\z", "\\ ", "\\\t", "\\n", "\\\n", "\\\\", "\\\"", "\\'", "\\0", "\\65", "\\x41", "\\u{41}", "\\q", "\"", "'", " ", "a", "1"];
+        let n = if tier == Tier::Thorough { 4 } else { 3 };
+        let mut layer: Vec<String> = vec![String::new()];
+        for _ in 0..n {
+            let mut next = Vec::new();
+            for b in &layer {
+                for u in UNITS {
+                    next.push(format!("{b}{u}"));
+                }
+            }
+            all.extend(next.iter().cloned());
+            layer = next;
+        }
+        all.sort();
+        all.dedup();
     }
     let syntaxes = [Syntax::Lua51, Syntax::Lua54, Syntax::Luau];
     let results = par_map(&all, |_, body| {
@@ -235,6 +255,8 @@ enum Ex {
     Un(&'static str, Box<Ex>),
     Bin(&'static str, Box<Ex>, Box<Ex>),
     Paren(Box<Ex>),
+    /// Luau type assertion `x :: T`
+    Assert(Box<Ex>),
 }
 
 fn render(e: &Ex, leaves: &[String], out: &mut String) {
@@ -267,6 +289,10 @@ fn render(e: &Ex, leaves: &[String], out: &mut String) {
             out.push('(');
             render(x, leaves, out);
             out.push(')');
+        }
+        Ex::Assert(x) => {
+            render(x, leaves, out);
+            out.push_str(" :: T");
         }
     }
 }
@@ -364,6 +390,32 @@ fn skeletons(syn: Syntax, max_ops: usize, extended: bool) -> Vec<Ex> {
                         out.push(Ex::Bin(o1, Box::new(inner_l), Box::new(l(0))));
                         out.push(Ex::Bin(o1, Box::new(l(0)), Box::new(inner_r.clone())));
                         out.push(Ex::Bin(o1, Box::new(inner_r), Box::new(l(0))));
+                    }
+                }
+            }
+        }
+    }
+    if syn == Syntax::Luau {
+        // the operand of a type assertion, and an assertion as an operand: `(-a) :: T`, `(a + b) :: T`, `-(a :: T)`,
+        // `(a :: T) + b`, `a + (-b) :: T`, ...
+        let mut operands: Vec<Ex> = vec![l(0)];
+        for un in &u {
+            operands.push(Ex::Un(un, Box::new(l(0))));
+        }
+        for op in &b {
+            operands.push(Ex::Bin(op, Box::new(l(0)), Box::new(l(1))));
+        }
+        for x in operands {
+            for w in wraps(x, true) {
+                let a = Ex::Assert(Box::new(w));
+                for wa in wraps(a, false) {
+                    out.push(wa.clone());
+                    for un in &u {
+                        out.push(Ex::Un(un, Box::new(wa.clone())));
+                    }
+                    for op in &b {
+                        out.push(Ex::Bin(op, Box::new(wa.clone()), Box::new(l(2))));
+                        out.push(Ex::Bin(op, Box::new(l(2)), Box::new(wa.clone())));
                     }
                 }
             }
